@@ -2,6 +2,7 @@ package main
 
 import (
 	"fmt"
+	"sort"
 	"math/rand"
 	"os"
 	"path/filepath"
@@ -137,6 +138,12 @@ func (s *scn) seedObject(dir, oid string) {
 	}
 }
 
+func (s *scn) countForms(ctx string, ps []pat) {
+	for _, p := range ps {
+		s.run.Count("pattern_"+ctx+"_"+p.Form, 1)
+	}
+}
+
 func joinPats(ps []pat) string { return strings.Join(patTexts(ps), ",") }
 
 func runScenario(run *evid.Run, src *source, k int) {
@@ -189,6 +196,8 @@ func (s *scn) runPlan() {
 		}
 	}
 	deliver(p.URLVia, "lfs.url", s.url)
+	s.countForms("config-include", p.CfgInc)
+	s.countForms("config-exclude", p.CfgExc)
 	if len(p.CfgInc) > 0 {
 		deliver(p.CfgVia, "lfs.fetchinclude", joinPats(p.CfgInc))
 	}
@@ -313,9 +322,11 @@ func (s *scn) runOp(o opPlan) {
 		args = []string{"lfs", strings.TrimPrefix(o.Kind, "lfs-")}
 		if o.Inc != nil {
 			args = append(args, "-I", joinPats(*o.Inc))
+			s.countForms("opt-I", *o.Inc)
 		}
 		if o.Exc != nil {
 			args = append(args, "-X", joinPats(*o.Exc))
+			s.countForms("opt-X", *o.Exc)
 		}
 		if len(o.Refs) > 0 {
 			args = append(args, "origin")
@@ -324,6 +335,7 @@ func (s *scn) runOp(o opPlan) {
 		}
 	case "lfs-checkout":
 		c.inc = o.Paths
+		s.countForms("checkout-arg", o.Paths)
 		args = append([]string{"lfs", "checkout"}, patTexts(o.Paths)...)
 	}
 	c.pre = snapshot(s.clone)
@@ -333,7 +345,22 @@ func (s *scn) runOp(o opPlan) {
 			c.preLocal[pi.Oid] = s.localValid(pi.Oid)
 		}
 	}
-	c.res = s.git(o.Kind, envExtra, args...)
+	cwd := s.clone
+	if o.Subdir {
+		// a directory of the working tree that exists right now (deterministic choice)
+		var ds []string
+		for f := range c.pre {
+			if i := strings.LastIndexByte(f, '/'); i > 0 {
+				ds = append(ds, f[:i])
+			}
+		}
+		if len(ds) > 0 {
+			sort.Strings(ds)
+			cwd = filepath.Join(s.clone, filepath.FromSlash(ds[s.r.Intn(len(ds))]))
+			s.run.Count("ops_run_from_subdirectory", 1)
+		}
+	}
+	c.res = s.exec(o.Kind, cwd, envExtra, "git", args...)
 	if s.stop {
 		return
 	}
